@@ -766,6 +766,8 @@ def to_erg(stmts, ind=0, top=False):
         elif k == "lamdef":
             _, name, p, t, body = s
             out.append(f"{pad}{name} = ({p}: {ERG_TY[t]}) -> {to_erg_expr(body)}")
+        elif k == "raw":
+            out += [pad + line for line in s[1].split("\n")]
         else:
             raise ValueError(k)
     return "\n".join(x for x in out if x is not None)
@@ -884,6 +886,8 @@ def to_py(stmts, ind=0, top=True):
         elif k == "lamdef":
             _, name, p, t, body = s
             out.append(f"{pad}{name} = lambda {p}: {to_py_expr(body)}")
+        elif k == "raw":
+            out += [pad + line for line in s[2].split("\n")]
         else:
             raise ValueError(k)
     return "\n".join(out)
